@@ -497,7 +497,7 @@ class C16(F.Check):
         # ------------------------------------------------------------------ C. the availability / value grid (closed)
         self.pairs = self.grid()
         self.cells = []
-        types = TYPES11
+        types = TYPES11 + ["long long", "unsigned long long"]      # distinct types with 64-bit arithmetic (type-identity dispatch)
         for pi, (c, u, why) in enumerate(self.pairs):
             r = U.ratio(c.unit, u.unit)
             for t in types:
